@@ -621,6 +621,12 @@ func runC12(c *CaseCtx) (res CaseResult) {
 	if c.Idx%35 == 3 {
 		return runC12FailingRedefined(c, r)
 	}
+	if c.Idx%35 == 24 {
+		return runC12FreshFuncFirstUse(c, r)
+	}
+	if c.Idx%35 == 31 {
+		return runC12ManyInFlight(c, r)
+	}
 	if c.Idx%35 == 17 {
 		return runC12ConvertTypes(c, r)
 	}
